@@ -407,5 +407,6 @@ PROPS["C14"]["thorough"].append({"variant": "default", "cases": 400000, "worker_
 PROPS["C14"]["thorough"].append({"variant": "default", "cases": 200000, "params": {"sparse": 1}, "worker_prop": "C14sym", "timeout": 3000})
 PROPS["C14"]["thorough"].append({"variant": "checks", "cases": 100000, "worker_prop": "C14sym", "timeout": 3000})
 PROPS["C14"]["floors"]["any"]["symbolic_histories_completed"] = 5000
+PROPS["C14"]["floors"]["any"]["rewrite_iterations"] = 2000
 PROPS["C08"]["quick"].append({"variant": "default", "cases": 8000, "worker_prop": "C14sym", "timeout": 600})
 PROPS["C08"]["thorough"].append({"variant": "default", "cases": 200000, "worker_prop": "C14sym", "timeout": 3000})
